@@ -30,6 +30,14 @@ CHECKS = {
    technique="explicit-state BFS over committed-transaction histories on the real B-tree zone with derived state in the canonical form, compared with a from-content reference; exhaustive load-order enumeration",
    text="BFS (depth 3 quick / 4 thorough) over histories of committed transactions adding/removing NS, A, DS rdatasets and whole nodes at apex, a, b.a, c.b.a, d, x.d (nested cuts, glue, names spelled relative and absolute) on relativized and absolute dns.btreezone.Zone; canonical form = content + flags + delegation index, so history-dependent derived state appears as extra states; in every state flags, index, iteration order and bounds() for 26 query names in both spellings equal a reference recomputed from content alone; every load order of every record set of <= 4-5 records from an 8-record pool is checked the same way.",
    note="6 names, 3 record kinds; derived-state definitions taken from the property statement and btreezone docstrings; bounded history depth."),
+ "C01": dict(level="exploration", ref="DESIGN.md §2 C01",
+   technique="exhaustive small-scope enumeration of labels, names, compression sequences, wire byte strings and pointer graphs against an independent RFC 1035 name codec",
+   text="Every 1- and 2-octet label over all 256 values, 3/4-octet labels over per-branch class alphabets, short label sequences x relativity x origins go through to_text/from_text, the tokenizer path and to_wire/from_wire (with shared compression tables at base offsets around 0x3FFF); every byte string up to length 5-7 over a boundary alphabet at every offset and every pointer graph on K<=5-6 cells is decoded by the library and by mc/refs/name.py, which must agree on labels, consumed length or error, with pointers strictly backwards; every producing operation (constructor, concatenate, relativize, derelativize, from_wire, successor, predecessor) is checked against the 63/255 limits on boundary-length names.",
+   note="Bounded label/name/byte-string sizes; IDNA paths out of scope; reference codec written from RFC 1035/4343 text."),
+ "C06": dict(level="exploration", ref="DESIGN.md §2 C06",
+   technique="exhaustive enumeration of all pairs and triples of names over a case-fold boundary alphabet against an independent RFC 4034 §6.1 comparator",
+   text="All pairs (and triples over a core) of relative and absolute names of <= 2-3 labels over the alphabet {00,-,@,A,Z,[,`,a,z,{,FF}: fullcompare relation/order/common-label count, all rich comparisons, subdomain/superdomain/parent/split, eq <=> equal up to ASCII case => equal hash, antisymmetry, transitivity, sorted() vs reference sort, relativize/derelativize identity for several origins; successor/predecessor strictly after/before (or wrap) and within length limits for every such name plus maximal-length names.",
+   note="Bounded label count/length and alphabet; minimality of successor/predecessor is not demanded (the property only requires strict order)."),
 }
 ALL = ["C%02d" % i for i in range(1, 21)]
 m = {
